@@ -37,7 +37,7 @@ pub fn generate_small(seed: u64) -> Option<Scenario> {
     use crate::jxlgen::random::{GenConfig, random_program};
     use crate::simio::StorageFault;
     let mut rng = Rng::new(derive(seed, 22, 0));
-    let cfg = GenConfig { max_dim: 20, max_frames: 2, max_pixels: 20 * 16, multi_group: false, noise: false, safe: true, ..GenConfig::small() }.swarm(&mut rng);
+    let cfg = GenConfig { max_dim: 20, max_frames: 2, max_pixels: 20 * 16, multi_group: false, noise: false, safe: true, vardct: rng.chance(1, 2), ..GenConfig::small() }.swarm(&mut rng);
     let prog = random_program(&mut rng, &cfg);
     let (mut bytes, map) = prog.encode().ok()?;
     if bytes.len() > 2500 {
